@@ -24,7 +24,8 @@ static TypeConsts type_consts() {
   TypeConsts t; t.has_big = false;
   bool full = CFG.consts == "full";
   if (CFG.c04 || EXACT_T) {
-    if (full) { t.unary = {Q(-2), Q(-1), Q(-1, 2), Q(0), Q(1, 2), Q(1), Q(2)}; t.binary = {Q(-1), Q(0), Q(1, 2), Q(1), Q(2)}; t.eq = {Q(0), Q(1, 2), Q(1)}; }
+    if (CFG.consts == "tiny") { t.unary = {Q(-1), Q(0)}; t.binary = {Q(0)}; t.eq = {Q(1)}; }
+    else if (full) { t.unary = {Q(-2), Q(-1), Q(-1, 2), Q(0), Q(1, 2), Q(1), Q(2)}; t.binary = {Q(-1), Q(0), Q(1, 2), Q(1), Q(2)}; t.eq = {Q(0), Q(1, 2), Q(1)}; }
     else { t.unary = {Q(-1), Q(0), Q(1, 2), Q(2)}; t.binary = {Q(-1), Q(0), Q(1)}; t.eq = {Q(0), Q(1, 2)}; }
     return t;
   }
@@ -245,6 +246,7 @@ static void build_ops() {
     for (int v = 0; v < CFG.maxdim; ++v) for (size_t ei = 0; ei < EM.size(); ++ei) for (long d : dens) for (int pre = 0; pre < 2; ++pre) {
       ZE e = EM[ei];
       if (v >= 2 && ei >= 12 && e.dim() < 3) continue;
+      if (!CFG.thorough && (ei == 6 || ei == 7 || ei == 9 || ei == 13 || ei == 18 || ei == 19 || ei == 20)) continue;
       Op o; o.name = std::string(pre ? "affine_preimage(" : "affine_image(") + vname(v) + "," + e.str() + "," + std::to_string(d) + ")";
       o.mode = affine_expressible(v, e, mpz_class(d)) ? M_EXACT : M_ENCLOSE;
       o.args.fam = "affine"; o.args.v = v; o.args.e = e; o.args.d = d; o.args.pre = pre;
@@ -256,8 +258,8 @@ static void build_ops() {
   }
   // generalized_affine_image / preimage (var form)
   {
-    std::vector<size_t> eidx = {0, 1, 2, 5, 10, 12, 14, 15, 8};
-    if (CFG.thorough) { eidx.push_back(11); eidx.push_back(17); eidx.push_back(4); }
+    std::vector<size_t> eidx = {0, 1, 2, 5, 10, 14, 15};
+    if (CFG.thorough) { eidx.push_back(12); eidx.push_back(8); eidx.push_back(11); eidx.push_back(17); eidx.push_back(4); }
     for (size_t k = 21; k < EM.size(); ++k) eidx.push_back(k);
     std::vector<long> dd = {1, 2, -1};
     for (int v = 0; v < CFG.maxdim; ++v) for (size_t ei : eidx) for (long d : dd) for (int rel = 0; rel < 5; ++rel) for (int pre = 0; pre < 2; ++pre) {
@@ -280,6 +282,7 @@ static void build_ops() {
   {
     std::vector<ZE> lhs = {ZE({1, 0}, 0), ZE({0, 1}, 0), ZE({1, 1}, 0), ZE({2, -1}, 1), ZE({}, 1), ZE({0, -1}, 0), ZE({-1, 0}, 1), ZE({2, 0}, 0), ZE({0, 3}, -1), ZE({1, -1}, 0)};
     std::vector<size_t> ridx = {0, 1, 10, 14, 15, 16, 12};
+    if (!CFG.thorough) { lhs.erase(lhs.begin() + 7, lhs.begin() + 9); ridx = {0, 1, 10, 14, 16}; }
     if (CFG.maxdim >= 3) { lhs.push_back(ZE({0, 0, 1}, 0)); lhs.push_back(ZE({0, 1, -1}, 0)); }
     for (const ZE& l : lhs) for (size_t ri : ridx) for (int rel = 0; rel < 5; ++rel) for (int pre = 0; pre < 2; ++pre) {
       if ((rel == 0 || rel == 4) && !OPEN_OK) continue;
